@@ -83,6 +83,12 @@ pub enum Surgery {
     /// flag combinations) keyed on `glyphs`, and remove `GPOS` so that the kern fallback applies.
     /// No corpus font has a format 2 subtable.
     InstallKern { glyphs: Vec<u16>, variant: u64 },
+    /// Rebuild a version 1.0 GSUB/GPOS so that every lookup becomes an Extension lookup pointing
+    /// into one of two verbatim copies of the original table, placed so that the Coverage table
+    /// of lookup `b`'s first subtable lies exactly 65536 bytes after that of lookup `a`.
+    /// Semantically the same font; the table is larger than 64 KiB and object caches keyed by a
+    /// truncated or relative offset collide.
+    ExtensionRelocate { table: String, a: u16, b: u16 },
     /// Re-pack `hmtx` with only `num_h_metrics` long metrics (glyphs after that take the last
     /// advance and keep their side bearing) and update `hhea`. Every corpus CFF2 font and most
     /// others have numberOfHMetrics == numGlyphs, which hides the compact form from the writers.
